@@ -381,6 +381,8 @@ pub struct Step {
     pub res: String,
     /// Frames each connection received during this step, in order.
     pub frames: BTreeMap<usize, Vec<Frame>>,
+    /// The same frames as the raw byte strings written to the connection's stream.
+    pub raw: BTreeMap<usize, Vec<Vec<u8>>>,
     /// Connections whose actor ended (stream dropped) during this step.
     pub ended: Vec<usize>,
     pub snap: Snapshot,
@@ -709,12 +711,14 @@ async fn run_async(script: &Script) -> Trace {
         }
         // collect
         let mut frames = BTreeMap::new();
+        let mut raw = BTreeMap::new();
         let mut ended = Vec::new();
         for (i, h) in w.conns.iter_mut().enumerate() {
             let sh = h.sh.lock().unwrap();
             if sh.out.len() > h.out_seen {
                 let fs: Vec<Frame> = sh.out[h.out_seen..].iter().map(|b| decode_r2c(b)).collect();
                 frames.insert(i, fs);
+                raw.insert(i, sh.out[h.out_seen..].iter().map(|b| b.to_vec()).collect::<Vec<_>>());
                 h.out_seen = sh.out.len();
             }
             if sh.dropped && !h.ended_seen {
@@ -723,7 +727,7 @@ async fn run_async(script: &Script) -> Trace {
             }
         }
         let snap = w.snapshot();
-        tr.steps.push(Step { op: op.clone(), res, frames, ended, snap, timeout });
+        tr.steps.push(Step { op: op.clone(), res, frames, raw, ended, snap, timeout });
     }
     tr
 }
